@@ -13,6 +13,8 @@ import ast
 
 from ..astutil import calls_in, call_name, where, truthiness_tests, kw
 from ..cfg import build_cfg
+from ..dataflow import private_closure
+from ..symtext import Expander, effect_calls
 from ..model import AnalysisError, unparse, walk_no_nested
 from . import common_tables as ct
 from .rules_order import compute_before_open
@@ -111,10 +113,10 @@ def run(prog, rep):
                   "getattr(self, 'parse_' + tag) has no target for <%s>" % tab["_name"], "odml/tools/xmlparser.py XMLReader")
     # the reader lower-cases child tags and maps through fmt.map before create(**arguments)
     rep.check(any(isinstance(n, ast.Call) and unparse(n.func).endswith(".create") and n.keywords
-                  and any(k.arg is None for k in n.keywords) for n in ast.walk(pt.node)),
+                  and any(k.arg is None for k in n.keywords) for h in private_closure(pt) for n in ast.walk(h.node)),
               "PROV-6", "reader creates objects via fmt.create(**arguments)", "ok",
               "parse_tag no longer builds the object from the collected arguments", pt.where)
-    map_stores = [n for n in ast.walk(pt.node) if isinstance(n, ast.Assign)
+    map_stores = [n for h in private_closure(pt) for n in ast.walk(h.node) if isinstance(n, ast.Assign)
                   and isinstance(n.value, ast.Call) and unparse(n.value.func).endswith(".map")]
     rep.check(bool(map_stores), "PROV-6", "reader maps element names through fmt.map", "ok",
               "parse_tag no longer maps odML element names to constructor keywords via fmt.map", pt.where)
@@ -188,8 +190,9 @@ def run(prog, rep):
     data_defs = [n for n in walk_no_nested(wf.node) if isinstance(n, ast.Assign)
                  and any(isinstance(t, ast.Name) and t.id == "data" for t in n.targets)]
     rep.floor("STYLE-1", len(data_defs), 1, "definitions of data in write_file")
+    wx = Expander(wf, inline=prog, expand_names=False)
     for d in data_defs:
-        v = d.value
+        v = wx.expand(d.value)
         if isinstance(v, ast.Call) and call_name(v) == "str" and len(v.args) == 1 and unparse(v.args[0]) == wf.params[0]:
             rep.ok("STYLE-1", "write_file: data = str(self)", "rendered document", where(wf, d))
             continue
@@ -216,8 +219,14 @@ def run(prog, rep):
     for name in ("from_string", "from_file"):
         f = prog.func("tools.xmlparser.XMLReader." + name)
         rep.saw_function(f)
-        calls = [call_name(c) for c in calls_in(f.node)]
-        rep.check("self._handle_version" in calls and "self.parse_element" in calls, "VER-1",
+        effs = effect_calls(prog, f, lambda c: isinstance(c.func, ast.Attribute) and c.func.attr in ("_handle_version", "parse_element"))
+        calls = ["self." + e.call.func.attr for e in effs]
+        hv0 = [e for e in effs if e.call.func.attr == "_handle_version"]
+        pe0 = [e for e in effs if e.call.func.attr == "parse_element"]
+        fg = build_cfg(f)
+        ordered = bool(hv0) and bool(pe0) and all(fg.dominates(hv0[0].node, e.node) for e in pe0) and \
+            (hv0[0].node.id != pe0[0].node.id or hv0[0].func is not f)
+        rep.check("self._handle_version" in calls and "self.parse_element" in calls and ordered, "VER-1",
                   "XMLReader.%s checks the version before parsing" % name, "ok",
                   "%s does not call _handle_version and parse_element" % name, f.where)
     rep.assume("lxml's builder E(tag, text) escapes XML metacharacters and ET.tounicode serialises faithfully")
